@@ -3,6 +3,7 @@
 
 #include <aws/common/clock.h>
 #include <aws/common/thread.h>
+#include <aws/common/logging.h>
 #include <aws/common/error.h>
 
 #include <deque>
@@ -88,6 +89,35 @@ void atexit_cb(void *ud) {
     c.hist = sim::mix64(c.hist, (uint64_t)code);
     sim::yield();
 }
+
+// ---- a logger that keeps per-thread state and has it freed by an at-exit callback (what a real logger with thread-local buffers
+// does): whenever the library logs on a launched thread, the first few calls register one more at-exit callback on that thread.
+// Dormant unless the thread code logs. A registration that is accepted must run like any other.
+static std::map<int, int> g_logger_regs; // per thread id: registrations made by the logger
+int tl_log(struct aws_logger *, enum aws_log_level, aws_log_subject_t, const char *, ...) {
+    Ctx *c = g;
+    if (!c || !sim::active()) return AWS_OP_SUCCESS;
+    auto it = c->by_tid.find(sim::self());
+    if (it == c->by_tid.end()) return AWS_OP_SUCCESS; // not a launched thread (or not started yet)
+    int id = it->second;
+    if (g_logger_regs[id] >= 3) return AWS_OP_SUCCESS;
+    g_logger_regs[id]++;
+    TRec &r = c->t[id];
+    int tag = (int)r.atexit_registered.size() + 1;
+    sim::probe("thread_code_logged_and_the_logger_registered_an_at_exit_callback");
+    if (aws_thread_current_at_exit(atexit_cb, (void *)(intptr_t)(id * 1000 + tag)) == AWS_OP_SUCCESS) {
+        // accepted: it belongs to the chain. It goes to the top of the stack - unless the chain is being run right now, in which
+        // case it is the next to run as well (same rule as for callbacks registered by callbacks)
+        r.atexit_registered.push_back(tag);
+        r.atexit_pending.push_back(tag);
+    }
+    return AWS_OP_SUCCESS;
+}
+enum aws_log_level tl_level(struct aws_logger *, aws_log_subject_t) { return AWS_LL_TRACE; }
+void tl_clean_up(struct aws_logger *) {}
+int tl_set_level(struct aws_logger *, enum aws_log_level) { return AWS_OP_SUCCESS; }
+struct aws_logger_vtable g_tl_vtable = {tl_log, tl_level, tl_clean_up, tl_set_level};
+struct aws_logger g_thread_logger = {&g_tl_vtable, nullptr, nullptr};
 
 struct Arg { Ctx *c; int id; uint64_t magic; };
 static Arg g_args[MAXT + 1];
@@ -403,6 +433,8 @@ RunInfo run(const sim::Plan &plan) {
     for (int k = 0; k < 3; k++) { aws_thread_once init = AWS_THREAD_ONCE_STATIC_INIT; g_once[k] = init; g_once_runs[k] = 0; g_once_done[k] = false; }
     sim::begin(plan);
     sim::set_observer(observer, &c);
+    g_logger_regs.clear();
+    aws_logger_set(&g_thread_logger);
     c.main_tid = sim::self();
     if (aws_thread_get_managed_thread_count() != 0) sim::violation("c20:harness", "managed thread count not zero at start of run");
     body(c, 0);
@@ -427,6 +459,7 @@ RunInfo run(const sim::Plan &plan) {
     }
     if (sim::unjoined_threads()) sim::violation("c20:not-joined", "%d simulated thread(s) were never joined or detached", sim::unjoined_threads());
     if (sim::mutex_held_any()) sim::violation("c20:lock-held", "a mutex is still locked at the end of the run");
+    aws_logger_set(nullptr);
     simalloc::expect_balanced("end of run (wrappers, names, at-exit records)");
     RunInfo ri;
     ri.st = sim::end();
